@@ -1,35 +1,8 @@
-import BumpVerif.Props.GenFnArith
+import BumpVerif.Props.GenFnFooter
 import BumpVerif.Gen.FnFast
-/-! # The translated fast path of `src/lib.rs` (`try_alloc_layout_fast`, `ChunkFooter::set_ptr`) equals the hand-written model -/
+/-! # The translated fast path of `src/lib.rs` (`try_alloc_layout_fast`) equals the hand-written model -/
 namespace Bump
 open Rs Gen
-
-/-- agreement of two state-passing results: same state, outcomes equal up to the `bad` text -/
-def simS {α : Type} (x y : St × Outcome α) : Prop := x.1 = y.1 ∧ Outcome.sim x.2 y.2
-
-theorem simS_refl {α : Type} (x : St × Outcome α) : simS x x := ⟨rfl, Outcome.sim_refl _⟩
-
-theorem emptyChunk_footer (E : Nat) : (emptyChunk E).footer = E := by
-  simp [emptyChunk, Chunk.footer]
-
-/-- no real chunk's footer sits at the address of the static empty chunk -/
-def HeadNotStatic (E : Nat) (a : Arena) : Prop := ∀ h ∈ a.chunks.head?, h.footer ≠ E
-
-theorem gen_set_ptr (E M p : Nat) (s : St) (why : String) (hne : HeadNotStatic E s.a) :
-    simS (Gen.Fn.set_ptr E M (s.a.cur E) p s) (storePtr E s p why) := by
-  unfold Gen.Fn.set_ptr Gen.Fn.is_empty storePtr setCurPtr Arena.cur
-  cases hc : s.a.chunks with
-  | nil =>
-    simp only [List.headD_nil, pureO, bindO, emptyChunk_footer, beq_self_eq_true, if_true]
-    by_cases hp : p = E
-    · subst hp; simp [emptyChunk, simS, Outcome.sim]
-    · have : ¬ (emptyChunk E).ptr = p := by simp [emptyChunk]; omega
-      simp [hp, this, simS, Outcome.sim]
-  | cons h rest =>
-    have hh : h.footer ≠ E := hne h (by simp [hc])
-    simp only [List.headD_cons, pureO, bindO, emptyChunk_footer, chunk_ptr_set, hc]
-    simp [hh, simS, Outcome.sim]
-
 
 /-- how the callers of the model's `tryFast` thread its result through the state -/
 def fastResult (E sz al : Nat) (s : St) : St × Outcome (Option Nat) :=
@@ -170,6 +143,6 @@ theorem gen_try_alloc_layout_fast (E sz al : Nat) (s : St)
           rw [← Bool.decide_or]; exact decide_eq_false hx
         simp only [hb, hx, Bool.false_eq_true, if_false]; exact hk _ _ (wsub_lt _ _)
 
-#print axioms gen_set_ptr
+#print axioms gen_fast_finish
 #print axioms gen_try_alloc_layout_fast
 end Bump
